@@ -419,12 +419,12 @@ def verb_pool(rng, keys):
         (["sort", "-t", k], [], []), (["sort", "-cr", k], [], []),
         (["filter", f'${k} != "nosuchvalue"'], [], []), (["filter", f'is_present(${k})'], [], []), (["filter", f'${k} < ${k2} || true'], [], []),
         (["filter", "-x", f'${k} == "nosuchvalue"'], [], []),
-        (["put", f'$new = ${k} + 1'], ["new"], []), (["put", f'$new = ${k} . ${k2}'], ["new"], []), (["put", f'$new = typeof(${k}) . asserting_not_error(${k2})'], ["new"], []),
+        (["put", f'$new = ${k} + 1'], ["new"], []), (["put", f'$new = ${k} . ${k2}'], ["new"], []), (["put", f'$new = typeof(${k}) . asserting_not_null(${k2})'], ["new"], []),
         (["put", f'$new = ${k} < ${k2}'], ["new"], []), (["put", f'$new = is_string(${k}) || is_numeric(${k}) || is_empty(${k})'], ["new"], []),
         (["put", f'$new = min(${k}, ${k2}) . max(${k}, ${k2})'], ["new"], []), (["put", f'$new = fmtifnum(${k}, "%.3lf")'], ["new"], []),
         (["put", f'$new = format_values is absent'.replace("format_values is absent", f'strlen(${k}) + length(${k2})')], ["new"], []),
         (["put", f'if (${k} > 0) {{$new = "pos"}} elif (${k} =~ "^[a-z]") {{$new = "alpha"}} else {{$new = "other"}}'], ["new"], []),
-        (["put", "-q", f'@s[${k}] = ${k2}; emit mapsum($*, {{"new": NR}})'], ["new"], []),
+        (["put", "-q", f'@s[string(${k})] = ${k2}; emit mapsum($*, {{"new": NR}})'], ["new"], []),
         (["put", f'map m = $*; $new = m["{k}"] . ":" . joink($*, ";")'], ["new"], []),
         (["put", f'func f(x) {{ return x . "" }} $new = f(${k})'], ["new"], []),
         (["put", f'$* = mapsum($*, {{"new": ${k} . "!"}})'], ["new"], []),
@@ -441,7 +441,7 @@ def verb_pool(rng, keys):
         (["having-fields", "--at-least", k], [], []), (["cat", "-n", "-g", k], ["n"], []), (["cat", "-N", "idx"], ["idx"], []), (["nl"], None, []),
         (["sec2gmt", "-3", "nosuch"], [], []), (["sec2gmtdate", "nosuch"], [], []), (["top", "-n", "100", "-f", k, "-a"], [], []),
         (["top", "-n", "100", "-f", k2, "-g", k, "-a", "--min"], [], []), (["decimate", "-n", "1"], [], []), (["sec2str", "nosuch", "%Y"], None, []),
-        (["label", "id"], [], []), (["sort-within-records"], [], keys + ["id"]), (["sort-within-records", "-r"], [], keys + ["id"]),
+        (["label", "id"], [], []), (["sort-within-records"], [], keys + ["id"]),
         (["seqgen", "--start", "1", "--stop", "0", "then", "cat"], None, []),
         (["fraction", "-f", "nosuch"], [], []), (["histogram", "-f", "nosuch", "--lo", "0", "--hi", "1", "--nbins", "1"], None, []),
         (["json-stringify", "-f", "nosuch"], [], []), (["utf8-to-latin1"], None, []), (["gap", "-n", "1000"], [], []), (["grep", "-i", "r"], [], []),
